@@ -780,6 +780,8 @@ def c20(run):
     types = ["str", "arr", "int", "float", "bool"]
     if run.tier == "quick":
         plan = [("str", "int", 3), ("arr", "float", 3), ("bool", "str", 3), ("int", "arr", 3), ("float", "bool", 3)]
+        # every ordered pair with short histories: a name registered for one type only, called on the other
+        plan += [(a, b, 2) for a in types for b in types if a != b]
     else:
         plan = [(a, b, 3) for a in types for b in types if a != b] + [("str", "int", 4), ("arr", "bool", 4), ("float", "int", 4)]
     sts = run.tlc_many([dict(module="MC_Reg", cfg=reg_cfg(a, b, n), name="MC_Reg_%s_%s_%d" % (a, b, n), timeout=3000, workers=2)
